@@ -2,7 +2,8 @@ import Infretis.Model.Proto
 import Infretis.Model.AddToPath
 import Infretis.Model.EngineLoops
 import Infretis.Model.EnginePropagate
-open Infretis Infretis.Proto Infretis.Engine Infretis.EngineLoops Infretis.EnginePropagate
+import Infretis.Model.EngineFault
+open Infretis Infretis.Proto Infretis.Engine Infretis.EngineLoops Infretis.EnginePropagate Infretis.EngineFault
 
 /-
 Requests (all numbers are integers; order values/interfaces are pre-scaled by the harness):
@@ -26,6 +27,10 @@ extension pass (Model/EnginePropagate.lean); <pt> = <file: u<n>|conf|rconf|traj>
   propgmx <asis|rep> <left> <right> <maxlen> <reverse> <code> <need0> <fuel> <gromppRc> <energyRc> <pt>
           <ns> (cid bid vel)… <n> (cid bid vel)… <m> (file vis vis2 alive)… <q> (cid bid value)…
         the point's file holds the ns frames; mdrun writes the n frames                           → propagateGmx
+
+audit pass (Model/EngineFault.lean)
+  extf <asis|guarded> <fault k|-> (the arguments of `ext`)            → extRunF; first token `err:body` when the body's
+                                                                        exception left `_propagate_from`
 -/
 
 def showStatus : Option PStatus → String
@@ -308,6 +313,19 @@ def handle2 (toks : List String) : String :=
         | none => "bad-op"
       | none => "bad-op"
     | _, _, _, _, _, _, _, _, _, _ => "bad-op"
+  | "extf" :: g :: fault :: kind :: l :: r :: ml :: rev :: code :: fuel :: rest =>
+    match parseOptNat fault, parseKind kind, parseInt? l, parseInt? r, parseNat? ml, parseInt? code, parseNat? fuel, takeTriples rest with
+    | some fault, some k, some l, some r, some ml, some code, some fuel, some (fr, rest) =>
+      match takeQuads rest with
+      | some (ws, rest) =>
+        match takeTriples rest with
+        | some (tab, []) =>
+          let c : Cfg := { ord := tableOrd tab, left := l, right := r, maxlen := ml, rev := rev = "1" }
+          let R := extRunF (if g = "guarded" then .guarded else .asIs) k c (toSched ws) code (toFrames fr) fuel fault
+          if R.body then "err:body" ++ (showResult R.res).drop 2 else showResult R.res
+        | _ => "bad-op"
+      | none => "bad-op"
+    | _, _, _, _, _, _, _, _ => "bad-op"
   | _ => handle toks
 
 def main : IO Unit := mainWith handle2
